@@ -26,7 +26,7 @@ PROP = {
 
 MUTATORS = ["add_block", "remove_block", "replace_block", "set-data3D", "set-force_and_torque", "set-force_platforms_data", "set-events", "set-emg"]
 READERS = ["blocks", "get_block-type", "get_block-index", "get_block-out-of-range", "getitem", "data3D", "force_and_torque", "force_platforms_data", "events", "emg",
-           "calibrationData", "has_data3D", "has_force_and_torque", "has_events", "has_emg", "has_force_platforms_data", "len", "nBytes", "eq", "eq-bare", "repr", "copy"]
+           "calibrationData", "has_data3D", "has_force_and_torque", "has_events", "has_emg", "has_force_platforms_data", "len", "nBytes", "eq", "eq-bare", "repr", "copy", "copy-into-directory"]
 SETTER_TYPE = {"set-data3D": "data3D", "set-force_and_torque": "force3D", "set-force_platforms_data": "platData", "set-events": "events", "set-emg": "emg"}
 
 
@@ -265,6 +265,22 @@ class Interp:
                     if oh is not None and not oh.closed:
                         self.leaked_other = True
                         oh.close()
+            if which == "copy-into-directory":
+                # the target is an existing DIRECTORY that already holds a file named like the source: whatever copy() makes of a directory
+                # target, no file that exists may change
+                self.copies += 1
+                sub = os.path.join(self.dir, f"session{self.copies}")
+                os.mkdir(sub)
+                victim = os.path.join(sub, os.path.basename(self.path))
+                with open(victim, "wb") as fh:
+                    fh.write(b"precious " * 50)
+                try:
+                    t.copy(sub)
+                except Exception:  # noqa
+                    pass
+                if open(victim, "rb").read() != b"precious " * 50:
+                    self.victim_changed = True
+                return None
             if which == "copy":
                 self.copies += 1
                 cp = t.copy(os.path.join(self.dir, f"copy{self.copies}.tdf"))
@@ -272,10 +288,13 @@ class Interp:
                 return cp
 
         self.leaked_other = False
+        self.victim_changed = False
         try:
             call()
         except Exception:  # noqa - a reader may refuse (absent block, undecodable type, never entered); it must just not write
             pass
+        if self.victim_changed:
+            self.ctx.fail("reader-copy-into-directory/existing-file-overwritten", "copy() with an existing directory as target overwrote a file that already existed inside it")
         if self.leaked_other:
             self.ctx.fail(f"reader-{which}/handle-left-open", "'==' left the implicitly opened handle of its right operand open")
         self.stats["readers"] += 1
@@ -286,7 +305,7 @@ class Interp:
             # if '==' opened an implicit context on the left operand it has consumed the arm like any context; if it raised
             # before opening anything the arm is untouched - learn which from the object's documented mode flag
             self.armed = getattr(t, "_mode", "rb") == "r+b"
-        implicit = not was_inside and which not in ("nBytes", "copy", "len", "eq", "eq-bare")
+        implicit = not was_inside and which not in ("nBytes", "copy", "copy-into-directory", "len", "eq", "eq-bare")
         if implicit:
             self.stats["implicit-open"] += 1
             self.armed = False  # an implicit context consumes the arm as any context exit does
@@ -411,3 +430,8 @@ SUBS = [
         rule="generated images; arbitrary interleavings of allow_write / enter / exit / exit-by-exception / new object / mutators / readers"),
 ]
 TIME_BUDGET = {"quick": 150, "thorough": 1500}
+
+from ..core import optimised_child_sub  # noqa: E402
+
+SUBS.append(optimised_child_sub("C08", ["matrix"], flags=("-W", "error::UserWarning"), name="matrix-with-warnings-as-errors", extra_env={"VERIF_WARNINGS": "error"},
+                               what="User / Deprecation / Future warnings are raised as exceptions"))
